@@ -1,0 +1,12 @@
+//go:build verif
+// +build verif
+
+package jsonpb
+
+// Export shims for the external model-based verification harness (build tag "verif").
+
+// VerifConvertHex rewrites the decoded JSON tree in place the way Unmarshal does.
+func VerifConvertHex(v interface{}) { convertHex(v) }
+
+// VerifConvertBase64 rewrites the decoded JSON tree in place the way Marshal does.
+func VerifConvertBase64(v interface{}) { convertBase64(v) }
